@@ -100,6 +100,14 @@ def make_directory(rng, conv, tier):
         victim = rng.choice(bad)
         victim['data'] = victim['data'][:max(0, min(len(f['data']) for f in files) - 1)]
         victim['kind'] += '+shrunk'
+    if bad and rng.random() < 0.3:
+        # a file whose size is exactly a power of two (a copy cut at 64 KiB, a tape block): thresholds on the size must put it somewhere
+        victim = rng.choice(bad)
+        target = rng.choice([65536, 65536, 65536, 32768, 131072, 4096, 8192, 16384])
+        if victim['data']:
+            d = victim['data']
+            victim['data'] = d[:target] if len(d) >= target else d + bytes(rng.getrandbits(8) for _ in range(target - len(d)))
+            victim['kind'] += '+size-%d' % target
     for f in ordered:
         if rng.random() < 0.15:
             f['ext'] = f['ext'].upper()        # WELL.DLIS / TAPE.LIS: the type gate reads the content, not the extension
@@ -233,4 +241,9 @@ def make_directory(rng, conv, tier):
         # reversing / end-relative selections (they select at least one frame of any non-empty log pass); not for LIS, whose
         # converter is known (C11) to mis-handle them
         options['frame_slice'] = rng.choice([{'step': -1}, {'start': -3}, {'step': -2}])
+    if rng.random() < 0.25:
+        # some entries of the directory are symbolic links to files kept elsewhere (logs linked in from an archive)
+        for f in rng.sample(ordered, min(len(ordered), rng.randrange(1, 3))):
+            f['as_link'] = True
+        placement += '/symbolic-links'
     return {'files': ordered, 'options': options, 'placement': placement, 'recurse': recurse, 'same_stem': same_stem}
